@@ -27,8 +27,13 @@ func verifHarnessC11Scaled() {
 	vals := make([][]byte, n)
 	poss := make([]*DataPos, n)
 	for i := 0; i < n; i++ {
-		kl := 1 + verifChoice("klen", 2)
-		vl := verifChoice("vlen", maxLen+1)
+		// lengths are symbolic: the solver enumerates every feasible value at the allocation site
+		kl := verifInt("klen")
+		verifAssume(kl >= 1)
+		verifAssume(kl <= 2)
+		vl := verifInt("vlen")
+		verifAssume(vl >= 0)
+		verifAssume(vl <= maxLen)
 		keys[i] = verifBytes("k", kl)
 		vals[i] = verifBytes("v", vl)
 		rec := &LogRecord{Key: keys[i], Value: vals[i], Type: LogRecordNormal}
